@@ -766,7 +766,7 @@ func run(c *core.Ctx) {
 	if c.Tier == core.Thorough {
 		depth = 4
 	}
-	srcs := []string{"ttml-framerate-24", "ssa-v4plus", "stl-open-30-tcp10h", "srt-lf", "srt-bom-noindex-eofblank", "vtt-full", "ssa-small", "ttml-small", "stl-open-25-2", "testdata/example-in.srt", "testdata/example-in.vtt", "testdata/example-in.ttml", "testdata/example-in.ssa", "testdata/example-opn-in.stl"}
+	srcs := []string{"vtt-equal-times-equal-texts", "ttml-framerate-24", "ssa-v4plus", "stl-open-30-tcp10h", "srt-lf", "srt-bom-noindex-eofblank", "vtt-full", "ssa-small", "ttml-small", "stl-open-25-2", "testdata/example-in.srt", "testdata/example-in.vtt", "testdata/example-in.ttml", "testdata/example-in.ssa", "testdata/example-opn-in.stl"}
 	for _, d := range docs {
 		use := false
 		for _, n := range srcs {
@@ -787,7 +787,12 @@ func run(c *core.Ctx) {
 			var next []node
 			for _, n := range fr {
 				// state reached: convert to every destination
-				_, _, st, ok := checkHistory(HistCase{Doc: d.Name, Format: d.Format, Data: d.Data, History: n.hist, HistIdx: n.idx})
+				hc0 := HistCase{Doc: d.Name, Format: d.Format, Data: d.Data, History: n.hist, HistIdx: n.idx}
+				k0, m0, st, ok := checkHistory(hc0)
+				if k0 != "" && c.Shard == 0 {
+					// an operation of the history departs from its specification (or panics): reported once
+					c.Violate("history", k0, m0, hc0, len(n.idx)*1000+len(d.Data))
+				}
 				if !ok {
 					continue
 				}
